@@ -707,6 +707,10 @@ def reachable_functions(index, sm):
     return seen
 
 
+def _cn(v):
+    return "$token"
+
+
 def run(index, rep, tier):
     rep.rule("R20.1", "token-loop progress: no cycle through a reader loop avoids every assignment to a condition variable, every token-advancing call and every exit")
     rep.rule("R20.2", "end-of-stream exit: under the end-of-stream assumption (optional sources return None, is_eof() holds) no reader loop has a feasible cycle")
@@ -789,10 +793,10 @@ def run(index, rep, tier):
                         cfg = cfg_of(fi)
                         cn = node_of_ast(cfg, c)
                         reachn = cfg.reach([cfg.entry], follow_exc=False,
-                                           edge_ok=lambda s, l, d, atxt=atxt: not (s.kind == "test" and norm(s.ast) in (atxt + ".isdigit()", atxt + ".isnumeric()") and l == "t"))
+                                           edge_ok=lambda s, l, d, atxt=atxt: not (s.kind == "test" and norm(s.ast) in (atxt + ".isdecimal()",) and l == "t"))     # isdigit()/isnumeric() do not imply that int() succeeds
                         guarded = cn is not None and cn not in reachn
-                    rep.check(guarded, "R20.4", fi.qualname, "unguarded %s" % norm(c), fn_where(fi, c), "%s: `%s` is under a ValueError handler or a digit test" % (fi.name, norm(c)),
-                              "%s converts token text with `%s` outside any ValueError handler and without a digit test: a non-numeric token raises a bare ValueError from inside the reader" % (fi.qualname, norm(c)))
+                    rep.check(guarded, "R20.4", fi.qualname, "unguarded %s" % norm(c), fn_where(fi, c), "%s: `%s` is under a ValueError handler or an isdecimal() test" % (fi.name, norm(c)),
+                              "%s converts token text with `%s` outside any ValueError handler and without an isdecimal() test (isdigit() / isnumeric() accept characters int() rejects): a non-numeric token raises a bare ValueError from inside the reader" % (fi.qualname, norm(c)))
         rep.floor("R20.4", "raise statements and numeric conversions on the reader paths", 60, nraise)
 
     # ---- R20.5
@@ -1171,6 +1175,64 @@ def run(index, rep, tier):
                     rep.check(not non_numeric, "R20.12", f.qualname, "%%%s given a non-number: %s" % (sp, norm(a)[:40]), fn_where(f, b), "%s: %%%s <- %s" % (f.name, sp, norm(a)[:40]),
                               "%s formats `%s` with %%%s: that is a sequence / label object, not a number, so composing the message raises `TypeError: %%d format: a real number is required` - a PHYLIP file with a repeated row label is answered with that internal TypeError instead of the data-parse error being written" % (f.qualname, norm(a)[:50], sp))
         rep.floor("R20.12", "numeric conversions in the readers' messages", 5, nfmt)
+
+    # ---- R20.13 numbers taken from tokens
+    with rep.section("R20.13"):
+        rep.rule("R20.13", "numbers taken from tokens cannot raise ValueError: an int(<token>) in the NEXUS reader is dominated by a test that implies the conversion succeeds (str.isdecimal - str.isdigit is also true for characters like the superscript two, which int() rejects) or sits in a try that catches ValueError; a step handed to range() that comes from the input is tested to be non-zero first")
+        nint_ = nstep = 0
+        for f in sm.fns:
+            if f.module.name != "dendropy.dataio.nexusreader":
+                continue
+            g = None
+            pm = None
+            for c in calls_in(f.node):
+                if isinstance(c.func, ast.Name) and c.func.id == "int" and len(c.args) == 1 and isinstance(c.args[0], ast.Name):
+                    v = c.args[0].id
+                    g = g or cfg_of(f)
+                    pm = pm or parent_map(f.node)
+                    nd = node_of_ast(g, c)
+                    if nd is None:
+                        continue
+                    # in a try that catches ValueError?
+                    q = pm.get(c)
+                    prev = c
+                    intry = False
+                    while q is not None and q is not f.node:
+                        if isinstance(q, ast.Try) and any(prev is b or any(prev is y for y in ast.walk(b)) for b in q.body):
+                            for h in q.handlers:
+                                names = {"BaseException"} if h.type is None else {norm(e).split(".")[-1] for e in (h.type.elts if isinstance(h.type, ast.Tuple) else [h.type])}
+                                if names & {"ValueError", "Exception", "BaseException"}:
+                                    intry = True
+                        prev = q
+                        q = pm.get(q)
+                    guards = [t for t in g.nodes if t.kind == "test" and isinstance(t.ast, ast.Call) and isinstance(t.ast.func, ast.Attribute) and norm(t.ast.func.value) == v and t.ast.func.attr in ("isdigit", "isdecimal", "isnumeric")]
+                    if not guards and not intry:
+                        continue        # converted from something that is not a raw token test (e.g. a regex group): other rules
+                    nint_ += 1
+                    strong = [t for t in guards if t.ast.func.attr == "isdecimal"]
+                    ids = {t.id for t in strong}
+                    ok = intry or (bool(strong) and g.dominated_by(nd, lambda x: x.id in ids, follow_exc=False, edge_ok=lambda a_, lab, b_: not (a_.id in ids and lab == "f")))
+                    rep.check(ok, "R20.13", f.qualname, "int(%s) guarded by %s only" % (_cn(v), sorted({t.ast.func.attr for t in guards}) or "nothing"), fn_where(f, c), "%s: int(%s) follows %s.isdecimal() / sits in a ValueError handler" % (f.name, v, v),
+                              "%s converts the token with int(%s) after testing only %s: str.isdigit() is true for characters such as '\u00b2' (superscript two) for which int() raises ValueError, so `dimensions ntax=\u00b2` is answered with that bare ValueError instead of a data-parse error (str.isdecimal() is the exact precondition of int())" % (f.qualname, v, sorted({t.ast.func.attr for t in guards})))
+                if isinstance(c.func, ast.Name) and c.func.id == "range" and len(c.args) == 3 and isinstance(c.args[2], ast.Name):
+                    st = c.args[2].id
+                    from_input = any(isinstance(a, ast.Assign) and norm(a.targets[0]) == st and isinstance(a.value, ast.Call) and isinstance(a.value.func, ast.Name) and a.value.func.id == "int" for a in walk_no_nested(f.node))
+                    if not from_input:
+                        continue
+                    nstep += 1
+                    g = g or cfg_of(f)
+                    nd = node_of_ast(g, c)
+                    tests = [t for t in g.nodes if t.kind == "test" and isinstance(t.ast, ast.Compare) and st in {x.id for x in ast.walk(t.ast) if isinstance(x, ast.Name)}]
+                    ok = bool(tests) and nd is not None
+                    if ok:
+                        # every path from an int() definition of the step to the range call passes one of the tests
+                        defs = [d for d in g.nodes if d.kind == "stmt" and isinstance(d.ast, ast.Assign) and norm(d.ast.targets[0]) == st and isinstance(d.ast.value, ast.Call) and norm(d.ast.value.func) == "int"]
+                        ids = {t.id for t in tests}
+                        ok = all(g.can_reach(d, lambda x: x is nd, avoid=lambda x: x.id in ids, follow_exc=False) is None for d in defs)
+                    rep.check(ok, "R20.13", f.qualname, "range() step taken from the input without a test", fn_where(f, c), "%s: the step of `%s` is tested before use" % (f.name, norm(c)[:40]),
+                              "%s passes `%s`, read from the document with int(), to range() as the step without testing it: `charset x = 1-6\\0;` makes range() raise `ValueError: range() arg 3 must not be zero`, which reaches the caller as it is" % (f.qualname, st))
+        rep.floor("R20.13", "int() conversions of tokens in the NEXUS reader", 4, nint_)
+        rep.floor("R20.13", "range() steps taken from the input", 1, nstep)
 
 
 def _branch_calls_raiser(cfg, n):
